@@ -63,14 +63,17 @@ PseudoVerdict(e) ==
        ELSE IF ~Inv_Call(rs, cf) THEN "Inv_C15_Call"
        ELSE TagClause(rs, e)
 
-Verdict(e) == IF e.ev = "pseudo" THEN PseudoVerdict(e)
+(* via "crd": Molecule.get_consensus_read() with its defaults - not an entry the property names: observation only *)
+Verdict(e) == IF e.ev = "pseudo" /\ e.via = "crd" THEN "ok"
+              ELSE IF e.ev = "pseudo" THEN PseudoVerdict(e)
               ELSE IF e.ev = "orphan" THEN "Inv_C15_Blocks_record_outside_every_molecule"
               ELSE "unknown_event"
 
 (* informational: positions where the call rule is outside the exact-integer domain; records that are not cut
    as the design model cuts them (not part of the statement) *)
 Notes(line, e) ==
-    IF e.ev # "pseudo" \/ Has(e, "raised") THEN TRUE
+    IF e.ev = "pseudo" /\ e.via = "crd" THEN Note(line, e.tid, "default_get_consensus_read_" \o PseudoVerdict(e))
+    ELSE IF e.ev # "pseudo" \/ Has(e, "raised") THEN TRUE
     ELSE LET cf == ConfOf(e.reads)
              rs == [ i \in DOMAIN e.records |-> RecOf(e.records[i]) ]
              und  == { p \in DOMAIN cf : ~Decidable(cf[p]) }
